@@ -735,14 +735,16 @@ impl<'d> Session<'d> {
                                 // name typify generates for an inline child of another definition
                                 // (`Foo` with an inline object property `bar`, and a definition
                                 // `FooBar`) is its own finding
-                                let child_collision = matches!(kind.as_str(), "dup-item" | "dup-impl")
-                                    && what
-                                        .split(|c: char| !(c.is_ascii_alphanumeric() || c == '_'))
+                                let child_collision: Option<&'static str> = if matches!(kind.as_str(), "dup-item" | "dup-impl") {
+                                    what.split(|c: char| !(c.is_ascii_alphanumeric() || c == '_'))
                                         .filter(|t| !t.is_empty())
-                                        .any(|t| self.child_name_collides_with_definition(t));
+                                        .find_map(|t| self.child_name_collides_with_definition(t))
+                                } else {
+                                    None
+                                };
                                 let (inv, key) = match kind.as_str() {
                                     "unresolved" => ("I5", format!("unresolved:{opkind}")),
-                                    k if child_collision => ("I4", format!("{k}:child-name-equals-definition:{opkind}")),
+                                    k if child_collision.is_some() => ("I4", format!("{k}:child-name-equals-definition:{}:{opkind}", child_collision.unwrap())),
                                     k => ("I4", format!("{k}:{opkind}")),
                                 };
                                 if seen.insert(key.clone()) {
@@ -900,7 +902,10 @@ impl<'d> Session<'d> {
 
     /// Is `name` both the type name of a definition and the name typify derives
     /// for an inline (untitled) object/enum property of another definition?
-    fn child_name_collides_with_definition(&self, name: &str) -> bool {
+    /// Some("child-first") when the parent (and so its child) is converted before the
+    /// definition of that name, Some("def-first") when the definition comes first
+    /// (definitions of one call are converted in key order).
+    fn child_name_collides_with_definition(&self, name: &str) -> Option<&'static str> {
         // a patch renames BOTH the definition and the colliding child
         let original: Option<&str> = self
             .desc_settings
@@ -909,19 +914,20 @@ impl<'d> Session<'d> {
             .find(|p| p.rename.as_deref() == Some(name))
             .map(|p| p.name.as_str());
         let name = original.unwrap_or(name);
-        let is_def = self.defs.keys().any(|k| crate::gen::pascal(k) == name);
-        if !is_def {
-            return false;
-        }
-        self.defs.iter().any(|(pn, ps)| {
-            ps.get("properties").and_then(|p| p.as_object()).map(|props| {
-                props.iter().any(|(prop, sch)| {
-                    let inline_named = sch.get("title").is_none()
-                        && sch.get("$ref").is_none()
-                        && ((sch.get("type") == Some(&json!("object")) && sch.get("properties").is_some()) || (sch.get("type") == Some(&json!("string")) && sch.get("enum").is_some()));
-                    inline_named && crate::gen::pascal(&format!("{}_{}", crate::gen::pascal(pn), prop)) == name
-                })
-            }).unwrap_or(false)
+        let def_key: &String = self.defs.keys().find(|k| crate::gen::pascal(k) == name)?;
+        self.defs.iter().find_map(|(pn, ps)| {
+            let props = ps.get("properties").and_then(|p| p.as_object())?;
+            let hit = props.iter().any(|(prop, sch)| {
+                let inline_named = sch.get("title").is_none()
+                    && sch.get("$ref").is_none()
+                    && ((sch.get("type") == Some(&json!("object")) && sch.get("properties").is_some()) || (sch.get("type") == Some(&json!("string")) && sch.get("enum").is_some()));
+                inline_named && crate::gen::pascal(&format!("{}_{}", crate::gen::pascal(pn), prop)) == name
+            });
+            if hit {
+                Some(if def_key < pn { "def-first" } else { "child-first" })
+            } else {
+                None
+            }
         })
     }
 
